@@ -374,6 +374,16 @@ func (k *Checker) onApplyConf(n *Node, e *pb.Entry, dec ccDecision, cs *pb.ConfS
 	if idx > k.gMax() {
 		return // reported elsewhere (entry applied beyond commit)
 	}
+	// C09 sn.base_kept: once a snapshot is the node's log base the node has the
+	// snapshot's membership; a configuration change from before the snapshot
+	// that the application was still holding must not be applied on top of it.
+	if x := k.nc[n.id]; x.snapBaseIdx >= idx && x.snapBaseConf != nil && dec != ccSkip {
+		k.count("sn.base_kept")
+		if got := refConfFromConfState(cs); !got.Equal(x.snapBaseConf) {
+			k.report2("C10", "mc.fold", "C09", "sn.install", n, fmt.Sprintf("ApplyConfChange for index %d ran after the snapshot at index %d had become the log base: membership is now %s, the snapshot says %s", idx, x.snapBaseIdx, got, x.snapBaseConf), "mc.fold.after_snapshot")
+			return
+		}
+	}
 	k.count("mc.fold")
 	var rec *confRec
 	for j := range k.confs {
